@@ -8,7 +8,10 @@ Thorough == IOEnv.VH_TIER = "thorough"
 NMax == IF Thorough THEN 4 ELSE 3
 Lattice == {-4, -3, -2, -1, 0, 1, 2, 3, 4}                 \* half-integers in [-2, 2], as numerators over 2
 RECURSIVE Inj(_, _)
-Inj(S, n) == IF n = 0 THEN {<<>>} ELSE {Append(s, v) : s \in Inj(S, n - 1), v \in S} \ {t \in {Append(s, v) : s \in Inj(S, n - 1), v \in S} : \E a, b \in 1..n : a # b /\ t[a] = t[b]}
+\* injective n-tuples over S
+Inj(S, n) == IF n = 0 THEN {<<>>} ELSE UNION { {Append(s, v) : v \in S \ {s[k] : k \in 1..Len(s)}} : s \in Inj(S, n - 1) }
+\* four nodes (thorough tier) are drawn from a six-point sub-lattice: 360 ordered tuples
+Lat(n) == IF n >= 4 THEN {-4, -2, 0, 1, 3, 4} ELSE Lattice
 RECURSIVE Tuples(_, _)
 Tuples(S, n) == IF n = 0 THEN {<<>>} ELSE {Append(s, v) : s \in Tuples(S, n - 1), v \in S}
 I(n) == COfInts(n, 0)
@@ -20,13 +23,13 @@ Zero(n) == [k \in 1..n |-> I(0)]
 \* Lagrange: every source polynomial with n coefficients over {-1,0,2}
 Lag == UNION { { [kind |-> "lagrange", cx |-> FALSE, xs |-> RX(t), ys |-> Sample([k \in 1..n |-> I(s[k])], RX(t)), ds |-> Zero(n),
                   tol |-> Tol, src |-> [k \in 1..n |-> I(s[k])], has_src |-> TRUE, mismatch |-> FALSE] :
-                 t \in Inj(Lattice, n), s \in Tuples({-1, 0, 2}, n) } : n \in 1..NMax }
+                 t \in Inj(Lat(n), n), s \in {u \in Tuples({-1, 0, 2}, n) : n < 4 \/ u[4] # 0} } : n \in 1..NMax }
 \* Hermite: sources with 2n coefficients from a fixed family
 HSrc(n) == { [k \in 1..(2 * n) |-> I(IF k % 3 = 0 THEN a ELSE IF k % 2 = 0 THEN b ELSE 1)] : a \in {-1, 2}, b \in {0, -2} }
             \cup { [k \in 1..(2 * n) |-> I(IF k = 2 * n THEN 1 ELSE 0)], [k \in 1..(2 * n) |-> I(IF k = 1 THEN 3 ELSE 0)] }
 Her == UNION { { [kind |-> "hermite", cx |-> FALSE, xs |-> RX(t), ys |-> Sample(s, RX(t)), ds |-> Sample(PDeriv(s), RX(t)),
                   tol |-> Tol, src |-> s, has_src |-> TRUE, mismatch |-> FALSE] :
-                 t \in Inj(Lattice, n), s \in HSrc(n) } : n \in 1..NMax }
+                 t \in Inj(Lat(n), n), s \in HSrc(n) } : n \in 1..NMax }
 \* arbitrary integer data: reproduction at the nodes only
 Arb == UNION { { [kind |-> kd, cx |-> FALSE, xs |-> RX(t), ys |-> [k \in 1..n |-> I(((t[k] * 3 + k) % 5) - 2)],
                   ds |-> [k \in 1..n |-> I(((t[k] + 2 * k) % 3) - 1)], tol |-> Tol, src |-> <<I(0)>>, has_src |-> FALSE, mismatch |-> FALSE] :
